@@ -188,6 +188,9 @@ type Inst struct {
 
 	curState  uint64
 	recording bool
+
+	adoptPending bool
+	lastObs      *obs
 }
 
 func New(p *Params) seqmc.Instance {
@@ -370,8 +373,51 @@ func (in *Inst) report(family, sig, desc string, fatal bool) {
 	} else {
 		in.P.Sink.Counters["other_family:"+family]++
 	}
-	if fatal && in.dead == "" {
-		in.dead = "diverged:" + family
+	if fatal {
+		// The model no longer describes the stored state. Rather than abandoning the branch
+		// (which would hide everything behind a known deviation) the model adopts the stored
+		// locks and write records at the next observation and the exploration goes on: every
+		// later report is again a single-step deviation from an agreed state.
+		in.adoptPending = true
+		in.P.Sink.Counters["model_adopted_stored_state"]++
+	}
+}
+
+// adopt makes the model agree with the stored locks and write records.
+func (in *Inst) adopt(o *obs) {
+	for _, k := range in.m.sortedKeys() {
+		mk := in.m.keys[k]
+		if mk.lock != nil && o.locks[k] == nil {
+			mk.removed[mk.lock.ts] = 'x'
+		}
+		mk.lock = nil
+		if ol := o.locks[k]; ol != nil {
+			l := *ol
+			mk.lock = &l
+			in.fillValue(mk, k, l.ts, l.kind)
+		}
+		mk.recs = append([]mrec(nil), o.recs[k]...)
+		sort.SliceStable(mk.recs, func(i, j int) bool { return mk.recs[i].commit > mk.recs[j].commit })
+		for _, r := range mk.recs {
+			in.fillValue(mk, k, r.start, r.kind)
+		}
+	}
+	in.adoptPending = false
+}
+
+func (in *Inst) fillValue(mk *mkey, k string, start uint64, kind byte) {
+	if kind != 'p' {
+		return
+	}
+	if _, ok := mk.vals[start]; ok {
+		return
+	}
+	for t, spec := range in.P.Txns {
+		if spec.Start == start {
+			if mut, ok := spec.Muts[k]; ok && mutKind(mut) == 'p' {
+				mk.vals[start] = valueFor(t, k, mut)
+			}
+		}
 	}
 }
 
@@ -435,6 +481,7 @@ func (in *Inst) Apply(op string) (bool, error) {
 	modelBefore := in.m.String()
 	if !isRequest(op) {
 		in.nMaint++
+		before := in.readAnswers()
 		changed, err := in.h.Maint(op)
 		if err != nil {
 			if _, ok := err.(*dbh.ImplError); ok {
@@ -456,12 +503,32 @@ func (in *Inst) Apply(op string) (bool, error) {
 		in.last, in.lastTs = "maint:"+opClass(op), 0
 		in.P.Sink.Counters["op:"+opClass(op)]++
 		in.dump = in.implDump()
+		in.sync()
+		// differential oracle: a maintenance transition changes no answer of any read
+		if after := in.readAnswers(); in.dead == "" && before != nil && after != nil {
+			for i := range before {
+				if i < len(after) && before[i] != after[i] {
+					k := before[i][:1]
+					if before[i][0] == 'S' {
+						k = in.allKeys()[0]
+					} else {
+						k = strings.SplitN(before[i], " ", 3)[1]
+					}
+					in.report("read", "read-changed-by-maintenance op="+opClass(op)+in.placement(k),
+						fmt.Sprintf("before %s: %s; after: %s", op, before[i], after[i]), false)
+					break
+				}
+			}
+		}
 		return true, nil
 	}
 	in.nReq++
 	in.path = append(in.path, op)
 	in.P.Sink.Counters["op:"+opClass(op)]++
 	in.step(op)
+	if in.dead == "" {
+		in.sync()
+	}
 	if in.dead != "" {
 		return true, nil
 	}
@@ -480,7 +547,8 @@ func (in *Inst) Key() string {
 	if !in.P.Dedup || in.dead != "" {
 		return ""
 	}
-	return fmt.Sprintf("m%d\n%s\n%s", in.nMaint, in.m.String(), in.dump)
+	k := fmt.Sprintf("m%d\n%s\n%s", in.nMaint, in.m.String(), in.dump)
+	return k
 }
 
 // implDump is the implementation state: every stored entry of the execution's keys
@@ -501,6 +569,13 @@ func (in *Inst) implDump() string {
 			c, uk, ts := kv.SplitInternalKey(e.Key)
 			if c != cf || !bytes.HasPrefix(uk, nsb) {
 				break
+			}
+			if cf == kv.CFLock && len(e.Value) > 0 {
+				// the lock value embeds the primary key, which carries the namespace
+				if l, err := percolator.DecodeLock(e.Value); err == nil {
+					fmt.Fprintf(&sb, "%d/%s@%d m%d lock(%s,%d,%d,%d,%d)\n", cf, uk[len(nsb):], ts, e.Meta, bytes.TrimPrefix(l.Primary, nsb), l.Ts, l.TTL, l.Kind, l.MinCommitTs)
+					continue
+				}
 			}
 			fmt.Fprintf(&sb, "%d/%s@%d m%d %x\n", cf, uk[len(nsb):], ts, e.Meta, e.Value)
 		}
@@ -592,7 +667,7 @@ func (in *Inst) outcome(s string) { in.P.Sink.Outcomes[s] = struct{}{} }
 // step applies one request to the real handlers and to the model.
 func (in *Inst) step(op string) {
 	// an unresolved candidate set is resolved by Check; requests are only applied on a resolved model
-	if len(in.cands) > 0 {
+	if len(in.cands) > 0 || in.adoptPending {
 		in.resolve()
 		if in.dead != "" {
 			return
@@ -1022,33 +1097,53 @@ func (in *Inst) match(m *model, o *obs) (family, sig, desc string) {
 	return "", "", ""
 }
 
-// resolve picks the successor candidate that matches the stored state.
-func (in *Inst) resolve() {
-	if len(in.cands) == 0 {
-		return
-	}
+// sync runs after every applied operation: it picks the successor candidate that matches
+// the stored locks and write records, reports a mismatch, and lets the model adopt the
+// stored state after a deviation.
+func (in *Inst) sync() {
 	o := in.observe()
 	if o == nil {
 		return
 	}
-	for _, c := range in.cands {
-		if f, _, _ := in.match(c, o); f == "" {
-			in.m, in.cands = c, nil
-			return
+	in.lastObs = o
+	if len(in.cands) > 0 {
+		picked := false
+		if !in.adoptPending {
+			for _, c := range in.cands {
+				if f, _, _ := in.match(c, o); f == "" {
+					in.m, picked = c, true
+					break
+				}
+			}
 		}
+		if !picked {
+			in.m = in.cands[0]
+		}
+		in.cands = nil
 	}
-	f, sig, desc := in.match(in.cands[0], o)
-	in.m, in.cands = in.cands[0], nil
-	in.report(f, sig, desc, true)
+	if in.adoptPending {
+		in.adopt(o)
+		return
+	}
+	if f, sig, desc := in.match(in.m, o); f != "" {
+		in.report(f, sig, desc, true)
+		in.adopt(o)
+	}
+}
+
+func (in *Inst) resolve() {
+	if len(in.cands) > 0 || in.adoptPending {
+		in.sync()
+	}
 }
 
 func (in *Inst) Check() (string, string) {
 	if in.dead != "" {
 		return "", ""
 	}
-	if len(in.cands) > 0 {
-		in.resolve()
-		if in.dead != "" {
+	if in.lastObs == nil || len(in.cands) > 0 || in.adoptPending {
+		in.sync()
+		if in.dead != "" || in.lastObs == nil {
 			return "", ""
 		}
 	}
@@ -1061,14 +1156,7 @@ func (in *Inst) Check() (string, string) {
 		}
 		return "", ""
 	}
-	o := in.observe()
-	if o == nil {
-		return "", ""
-	}
-	if f, sig, desc := in.match(in.m, o); f != "" {
-		in.report(f, sig, desc, true)
-		return "", ""
-	}
+	o := in.lastObs
 	in.P.Sink.checked[sk] = nil
 	in.curState, in.recording = sk, true
 	defer func() { in.recording = false }()
@@ -1108,7 +1196,7 @@ func (in *Inst) checkReads() {
 			got := classifyGet(g.GetError(), g.GetNotFound(), g.GetValue(), want)
 			in.outcome("get:" + got)
 			if got != "ok" {
-				in.report("read", fmt.Sprintf("get got=%s want=%s newest-record=%c", got, wantClass(want), want.newest)+in.placement(k),
+				in.report("read", fmt.Sprintf("get got=%s want=%s newest-record=%c", got, wantClass(want), want.newest),
 					fmt.Sprintf("GET(%s, t=%s) = %s, model: %s; state %s", k, tsName(t), getText(g), wantText(want), in.m.String()), false)
 			}
 		}
@@ -1225,7 +1313,7 @@ func (in *Inst) checkReads() {
 				if len(in.m.keys[k].recs) == 0 {
 					recs = "none"
 				}
-				in.report("read", fmt.Sprintf("scan got=%s want=%s newest-record=%c records=%s", got, wantClass(want), want.newest, recs)+in.placement(k),
+				in.report("read", fmt.Sprintf("scan got=%s want=%s newest-record=%c records=%s", got, wantClass(want), want.newest, recs),
 					fmt.Sprintf("SCAN(from %s, limit=%d, t=%s) for key %s: %s (kvs=%v error=%v), model: %s; state %s", keys[0], limit, tsName(t), k, got, gotOrder, sc.GetError(), wantText(want), in.m.String()), false)
 			}
 		}
@@ -1276,6 +1364,36 @@ func (in *Inst) placement(k string) string {
 		parts = append(parts, name+"="+strings.Join(out, ","))
 	}
 	return " placement:" + strings.Join(parts, "/")
+}
+
+// readAnswers lists the raw answers of GET on every key and SCAN over the range at every
+// probe timestamp (used to compare before/after a maintenance transition).
+func (in *Inst) readAnswers() []string {
+	if in.dead != "" {
+		return nil
+	}
+	keys := in.allKeys()
+	var out []string
+	for _, t := range in.m.probeTs() {
+		for _, k := range keys {
+			r := in.apply1(&pb.Request{CmdType: pb.CmdType_CMD_GET, Cmd: &pb.Request_Get{Get: &pb.GetRequest{Key: in.uk(k), Version: t}}})
+			if r == nil {
+				return nil
+			}
+			out = append(out, fmt.Sprintf("GET %s t=%s -> %s", k, tsName(t), getText(r.GetGet())))
+		}
+		r := in.apply1(&pb.Request{CmdType: pb.CmdType_CMD_SCAN, Cmd: &pb.Request_Scan{Scan: &pb.ScanRequest{
+			StartKey: in.uk(keys[0]), IncludeStart: true, Limit: uint32(len(keys) + 1), Version: t}}})
+		if r == nil {
+			return nil
+		}
+		var sb strings.Builder
+		for _, kvp := range r.GetScan().GetKvs() {
+			fmt.Fprintf(&sb, "%s=%q ", kvp.GetKey(), kvp.GetValue())
+		}
+		out = append(out, fmt.Sprintf("SCAN t=%s -> %serror=%v", tsName(t), sb.String(), r.GetScan().GetError()))
+	}
+	return out
 }
 
 func tsName(t uint64) string {
